@@ -156,16 +156,24 @@ def _scenario(args):
     vios = {}
     stats = {"executions": 0, "capped": False, "outcomes": set(), "points_max": 0, "preempt_max": 0, "replay_checked": 0}
 
+    raw = {}  # anomaly -> {"min_p", "summary", "detail", "count"}
+
     def vio(what, summary, detail):
-        sig = "C05|%s/%s/%s|%s" % (kind, mode, "|".join(ops), what)
-        e = vios.get(sig)
+        p = detail.get("preemptions", 0)
+        e = raw.get(what)
         if e is None:
-            vios[sig] = {"summary": summary, "witness": dict(detail, backend=kind, mode=mode, ops=list(ops)), "count": 1}
+            raw[what] = {"min_p": p, "summary": summary, "detail": detail, "count": 1}
         else:
             e["count"] += 1
-            if len(detail.get("schedule", [])) < len(e["witness"].get("schedule", [0] * 999)):
-                e["witness"] = dict(detail, backend=kind, mode=mode, ops=list(ops))
+            if p < e["min_p"] or (p == e["min_p"] and len(detail.get("schedule", [])) < len(e["detail"].get("schedule", []))):
+                e["min_p"] = p
                 e["summary"] = summary
+                e["detail"] = detail
+
+    def finalize():
+        for what, e in raw.items():
+            sig = "C05|%s/%s/%s|%s|min-preemptions=%d" % (kind, mode, "|".join(ops), what, e["min_p"])
+            vios[sig] = {"summary": e["summary"] + " (fewest preemptions needed: %d)" % e["min_p"], "witness": dict(e["detail"], backend=kind, mode=mode, ops=list(ops)), "count": e["count"]}
 
     tdir, etags = make_template(kind)
     allowed = sequential_outcomes(kind, tdir, etags, ops)
@@ -229,9 +237,23 @@ def _scenario(args):
         stats["replay_checked"] = 1
         if ta != tb:
             return vios, stats, label, "replay of the default schedule diverged: %r vs %r" % (ta[:8], tb[:8])
-        n, capped = sched.explore(run_one, bound, max_executions=maxexec, on_execution=check)
-        stats["capped"] = capped
+        # iterative context bounding: bound 0, then 1, ... ; only executions with exactly b preemptions are new at level b
+        stats["bound_completed"] = -1
+        budget = maxexec
+        for b in range(bound + 1):
+            def on_exec(x, b=b):
+                if x.preemptions == b:
+                    check(x)
+                else:
+                    shutil.rmtree(x.dir, ignore_errors=True)
+            n, capped = sched.explore(run_one, b, max_executions=budget, on_execution=on_exec)
+            if capped:
+                stats["capped"] = True
+                break
+            stats["bound_completed"] = b
+        finalize()
     except (sched.Deadlock, sched.ReplayDivergence) as e:
+        finalize()
         return vios, stats, label, "%s: %s" % (type(e).__name__, e)
     finally:
         shutil.rmtree(tdir, ignore_errors=True)
@@ -252,12 +274,12 @@ def run(tier, workers=None):
     else:
         for kind in ("tree", "bare"):
             for ops in PAIRS:
-                jobs.append((kind, "processes", ops, 3 if kind == "tree" else 2, 6000))
-                jobs.append((kind, "threads", ops, 2, 4000))
+                jobs.append((kind, "processes", ops, 3 if kind == "tree" else 2, 2500))
+                jobs.append((kind, "threads", ops, 2, 2500))
             for ops in TRIPLES:
-                jobs.append((kind, "processes", ops, 2, 6000))
+                jobs.append((kind, "processes", ops, 2, 2500))
         for ops in PAIRS[:8]:
-            jobs.append(("mem", "threads", ops, 2, 4000))
+            jobs.append(("mem", "threads", ops, 2, 2500))
     ctx = mp.get_context("fork")
     with ctx.Pool(nw, maxtasksperchild=4) as pool:
         results = pool.map(_scenario, jobs, chunksize=1)
@@ -274,7 +296,7 @@ def run(tier, workers=None):
         outcomes += len(stats["outcomes"])
         if stats["capped"]:
             capped.append(label)
-        per.append({"scenario": label, "executions": stats["executions"], "distinct_outcomes": len(stats["outcomes"]), "max_points": stats["points_max"], "capped": stats["capped"]})
+        per.append({"scenario": label, "executions": stats["executions"], "distinct_outcomes": len(stats["outcomes"]), "max_points": stats["points_max"], "capped": stats["capped"], "preemption_bound_completed": stats.get("bound_completed")})
     samples = [{"scenario": p["scenario"], "executions": p["executions"], "distinct_outcomes": p["distinct_outcomes"]} for p in per[:4]]
     cov = {
         "states": outcomes,
